@@ -1,6 +1,9 @@
 package c01
 
 import (
+	"encoding/json"
+	"os"
+	"path/filepath"
 	"testing"
 
 	"pgregory.net/rapid"
@@ -13,8 +16,8 @@ func TestMain(m *testing.M) {
 	h.Setup("C01",
 		"F-core AST (depth<=4) printed canonically or in x-mode x option subsets of {i,m,s,n,x,RE2} x inputs (bounded-exhaustive over a 2-4 symbol pattern-derived alphabet, len<=5/4, for ~1/4 of the patterns; otherwise 10 pattern-directed/random strings) x every start offset; one evaluation = one (pattern,input,offset) comparison of FindRunesMatchStartingAt with the reference matcher; non-trivial = the reference finds a match and the pattern has a choice point (alternation, quantifier, lookaround, backreference, conditional), or there is no match although a literal rune of the pattern occurs in the input; distinct = hash of (pattern, options, input, offset)",
 		map[string]float64{"match": 0.30, "nomatch": 0.15, "startAt-inner": 0.25, "nonascii-input": 0.10,
-			"feat:lookahead": 0.03, "feat:lookbehind": 0.03, "feat:atomic": 0.03, "feat:backref": 0.03, "feat:conditional": 0.03,
-			"feat:lazy": 0.03, "feat:counted-loop": 0.03, "feat:named-group": 0.03, "feat:inline-option": 0.03},
+			"feat:lookahead/patterns": 0.04, "feat:lookbehind/patterns": 0.04, "feat:atomic/patterns": 0.04, "feat:backref/patterns": 0.04, "feat:conditional/patterns": 0.04,
+			"feat:lazy/patterns": 0.04, "feat:counted-loop/patterns": 0.04, "feat:named-group/patterns": 0.04, "feat:inline-option/patterns": 0.04},
 		"the reference matcher (internal/refmatch) is a correct reading of the documented .NET-style semantics; it is guarded by a hand-checked table (TestReferenceTable) run in the replay tier",
 		"IgnoreCase letters are restricted to plain upper/lower pairs")
 	h.Ceiling("compile-error", 0.01)
@@ -28,4 +31,25 @@ func TestProp(t *testing.T) {
 
 func TestReplay(t *testing.T) {
 	h.RunReplay(t, func(c refprop.Case) error { return refprop.Check(c) })
+}
+
+// TestWriteTable regenerates the hand-checked table as replay files (regress/C01, regress/C15).
+// Run with VERIF_WRITE_TABLE=/verif/regress.
+func TestWriteTable(t *testing.T) {
+	dir := os.Getenv("VERIF_WRITE_TABLE")
+	if dir == "" {
+		t.Skip("VERIF_WRITE_TABLE not set")
+	}
+	for _, e := range refprop.Table {
+		prop := "C01"
+		if e.RTL {
+			prop = "C15"
+		}
+		cb, _ := json.Marshal(refprop.TableCase(e))
+		rb, _ := json.MarshalIndent(h.Replay{Property: prop, Message: "table: " + e.Origin, Case: cb}, "", " ")
+		_ = os.MkdirAll(filepath.Join(dir, prop), 0o755)
+		if err := os.WriteFile(filepath.Join(dir, prop, "table-"+e.Name+".json"), rb, 0o644); err != nil {
+			t.Fatal(err)
+		}
+	}
 }
